@@ -66,72 +66,113 @@ def floatTokens (l : Bytes) : Option (List Bytes) :=
 def everyThirdFrom1 (l : List Bytes) : List Bytes :=
   (List.range l.length).filterMap fun i => if i % 3 = 1 then l[i]? else none
 
-def parse (text : Bytes) (limit : Option Int) : Res := Id.run do
+/-- `n` lines of cell sizes starting at line `i` -/
+def parseDx (line : Nat → Bytes) : Nat → Nat → Option (List (List Bytes))
+  | _, 0 => some []
+  | i, n + 1 =>
+    match floatTokens (line i) with
+    | none => none
+    | some d => (parseDx line (i + 1) n).map (d :: ·)
+
+/-- the `nd` lines `lo hi` of one box starting at line `i` -/
+def parseBoxDims (line : Nat → Bytes) : Nat → Nat → Option (List (Bytes × Bytes))
+  | _, 0 => some []
+  | i, n + 1 =>
+    match splitWs (line i) with
+    | [lo, hi] => if pyFloatOk lo && pyFloatOk hi then (parseBoxDims line (i + 1) n).map ((lo, hi) :: ·) else none
+    | _ => none
+
+/-- `n` boxes of `nd` lines each starting at line `i` -/
+def parseLevelBoxes (line : Nat → Bytes) (nd : Nat) : Nat → Nat → Option (List (List (Bytes × Bytes)))
+  | _, 0 => some []
+  | i, n + 1 =>
+    match parseBoxDims line i nd with
+    | none => none
+    | some b => (parseLevelBoxes line nd (i + nd) n).map (b :: ·)
+
+/-- `read_boxes`: `n` level blocks starting at line `cur`, the first one being level `lv`; per level
+    (number of boxes, boxes, directory of the level) -/
+def parseLevels (line : Nat → Bytes) (nlines nd : Nat) :
+    Nat → Nat → Nat → Option (List (Int × List (List (Bytes × Bytes)) × Bytes))
+  | _, _, 0 => some []
+  | cur, lv, n + 1 =>
+    match splitWs (line cur) with
+    | [a, b, _] =>
+      match pyInt a, pyInt b with
+      | some curLevel, some ncells =>
+        if curLevel ≠ (lv : Int) then none else
+        match parseLevelBoxes line nd (cur + 2) ncells.toNat with
+        | none => none
+        | some lvb =>
+          let c := cur + 2 + ncells.toNat * nd
+          -- `readline().split('/')[0]`: the newline stays when the line has no '/'
+          let raw := line c ++ (if c + 1 < nlines then [10] else [])
+          (parseLevels line nlines nd (c + 1) (lv + 1) n).map ((ncells, lvb, (splitOn 47 raw).headD []) :: ·)
+      | _, _ => none
+    | _ => none
+
+/-- `compute_global_grids` indexes every list by level and coordinate -/
+def gridsOK (nd : Nat) (dx : List (List Bytes)) (gs : List (List Int)) (n : Nat) : Bool :=
+  (List.range n).all fun lv =>
+    decide (lv < dx.length) && decide (nd ≤ (dx.getD lv []).length) && decide (lv < gs.length) &&
+      decide (nd ≤ (gs.getD lv []).length) && !((gs.getD lv []).any (· < 0))
+
+def parse (text : Bytes) (limit : Option Int) : Res :=
   let lines := splitOn 10 text
   let line (i : Nat) : Bytes := lines.getD i []
-  let some nvars := pyInt (line 1) | return .refused "nvars"
-  if nvars < 0 then return .refused "nvars-neg"
+  match pyInt (line 1) with
+  | none => .refused "nvars"
+  | some nvars =>
+  if nvars < 0 then .refused "nvars-neg" else
   let nv := nvars.toNat
-  let mut tbl : List (Bytes × Nat) := []
-  for i in List.range nv do
-    tbl := addField tbl (line (2 + i)) i
+  let tbl := (List.range nv).foldl (fun t i => addField t (line (2 + i)) i) []
   let p := 2 + nv
-  let some ndims := pyInt (line p) | return .refused "ndims"
-  if !pyFloatOk (line (p + 1)) then return .refused "time"
-  let some maxLevel := pyInt (line (p + 2)) | return .refused "maxlevel"
-  let some geoLo := floatTokens (line (p + 3)) | return .refused "geolo"
-  let some geoHi := floatTokens (line (p + 4)) | return .refused "geohi"
-  let some factors := intTokens (line (p + 5)) | return .refused "factors"
-  let blocks := everyThirdFrom1 (splitWs (line (p + 6)))
-  let some grids := blocks.mapM (fun b => (splitOn 44 (remove 41 (remove 40 b))).mapM pyInt) | return .refused "grid"
+  match pyInt (line p) with
+  | none => .refused "ndims"
+  | some ndims =>
+  if !pyFloatOk (line (p + 1)) then .refused "time" else
+  match pyInt (line (p + 2)) with
+  | none => .refused "maxlevel"
+  | some maxLevel =>
+  match floatTokens (line (p + 3)), floatTokens (line (p + 4)) with
+  | none, _ => .refused "geolo"
+  | _, none => .refused "geohi"
+  | some geoLo, some geoHi =>
+  match intTokens (line (p + 5)) with
+  | none => .refused "factors"
+  | some factors =>
+  match (everyThirdFrom1 (splitWs (line (p + 6)))).mapM (fun b => (splitOn 44 (remove 41 (remove 40 b))).mapM pyInt) with
+  | none => .refused "grid"
+  | some grids =>
   let gridSizes := grids.map (·.map (· + 1))
-  let some steps := intTokens (line (p + 7)) | return .refused "steps"
-  if maxLevel + 1 < 0 then return .refused "maxlevel-neg"
+  match intTokens (line (p + 7)) with
+  | none => .refused "steps"
+  | some steps =>
+  if maxLevel + 1 < 0 then .refused "maxlevel-neg" else
   let nl := (maxLevel + 1).toNat
-  let mut dx : List (List Bytes) := []
-  for k in List.range nl do
-    let some d := floatTokens (line (p + 8 + k)) | return .refused "dx"
-    dx := dx ++ [d]
+  match parseDx line (p + 8) nl with
+  | none => .refused "dx"
+  | some dx =>
   let q := p + 8 + nl
-  let some zero := pyInt (line (q + 1)) | return .refused "zero"
-  if zero ≠ 0 then return .refused "zero-assert"
-  let limitLevel ← match limit with
-    | none => pure maxLevel
-    | some l => if l ≤ maxLevel then pure l else return .refused "limit"
-  -- read_boxes
-  let mut cur := q + 2
-  let mut npoints : List Int := []
-  let mut boxes : List (List (List (Bytes × Bytes))) := []
-  let mut paths : List Bytes := []
-  for lv in List.range (limitLevel + 1).toNat do
-    let [a, b, _] := splitWs (line cur) | return .refused "level-line"
-    let some curLevel := pyInt a | return .refused "level-int"
-    let some ncells := pyInt b | return .refused "ncells-int"
-    if curLevel ≠ lv then return .refused "level-assert"
-    cur := cur + 2
-    let mut lvb : List (List (Bytes × Bytes)) := []
-    for _ in List.range ncells.toNat do
-      let mut bx : List (Bytes × Bytes) := []
-      for _ in List.range ndims.toNat do
-        let [lo, hi] := splitWs (line cur) | return .refused "box-line"
-        if !(pyFloatOk lo && pyFloatOk hi) then return .refused "box-float"
-        bx := bx ++ [(lo, hi)]
-        cur := cur + 1
-      lvb := lvb ++ [bx]
-    -- `readline().split('/')[0]`: the newline stays when the line has no '/'
-    let raw := line cur ++ (if cur + 1 < lines.length then [10] else [])
-    paths := paths ++ [(splitOn 47 raw).headD []]
-    cur := cur + 1
-    npoints := npoints ++ [ncells]
-    boxes := boxes ++ [lvb]
-  -- compute_global_grids indexes every list by level and coordinate
+  match pyInt (line (q + 1)) with
+  | none => .refused "zero"
+  | some zero =>
+  if zero ≠ 0 then .refused "zero-assert" else
+  let limitLevel? : Option Int := match limit with
+    | none => some maxLevel
+    | some l => if l ≤ maxLevel then some l else none
+  match limitLevel? with
+  | none => .refused "limit"
+  | some limitLevel =>
+  let nsel := (limitLevel + 1).toNat
+  match parseLevels line lines.length ndims.toNat (q + 2) 0 nsel with
+  | none => .refused "levels"
+  | some lvs =>
   let nd := ndims.toNat
-  if geoLo.length < nd || geoHi.length < nd then return .refused "grids-geo"
-  for lv in List.range (limitLevel + 1).toNat do
-    if (dx.getD lv []).length < nd || lv ≥ dx.length then return .refused "grids-dx"
-    if (gridSizes.getD lv []).length < nd || lv ≥ gridSizes.length then return .refused "grids-size"
-    if (gridSizes.getD lv []).any (· < 0) then return .refused "grids-neg"
-  return .ok { version := line 0, fields := tbl, ndims, time := line (p + 1), maxLevel, limitLevel,
-               geoLo, geoHi, factors, gridSizes, steps, dx, npoints, boxes, cellPaths := paths }
+  if geoLo.length < nd || geoHi.length < nd then .refused "grids-geo" else
+  if !gridsOK nd dx gridSizes nsel then .refused "grids" else
+  .ok { version := line 0, fields := tbl, ndims, time := line (p + 1), maxLevel, limitLevel,
+        geoLo, geoHi, factors, gridSizes, steps, dx, npoints := lvs.map (·.1), boxes := lvs.map (·.2.1),
+        cellPaths := lvs.map (·.2.2) }
 
 end Header
